@@ -237,7 +237,7 @@ func genC02(seed uint64, idx int, tier string) *Scenario {
 		for t := r.Range(1, 2); t > 0; t-- {
 			sport, dport := r.Range(1024, 65535), r.Range(1, 65535)
 			if r.Chance(0.3) {
-				dport = []int{23, 80, 443, 445, 1433, 6379, 9200, 8080}[r.Intn(8)]
+				dport = []int{23, 80, 443, 139, 445, 1433, 6379, 9200, 8080}[r.Intn(9)]
 			}
 			isn := r.Uint32()
 			sent := uint32(0)
@@ -262,6 +262,11 @@ func genC02(seed uint64, idx int, tier string) *Scenario {
 					add(tcpACK, isn+1+sent, ack, nil)
 				case 4:
 					pl := r.Bytes(r.Range(1, 40))
+					if shaped := rawDecoderPayload(r, dport); shaped != nil && r.Chance(0.7) {
+						pl = shaped // what the port's decoder parses (TLS hello, SMB header, ...), also cut short
+					} else if (dport == 80 || dport == 9200) && r.Chance(0.7) {
+						pl = []byte("GET /" + r.word(0, 8) + " HTTP/1." + fmt.Sprint(r.Intn(3)) + "\r\nHost: " + r.word(0, 5) + "\r\n" + []string{"\r\n", "", "Content-Length: 5\r\n\r\nab"}[r.Intn(3)])
+					}
 					add(tcpPSH|tcpACK, isn+1+sent, ack, pl)
 					sent += uint32(len(pl))
 				case 5:
